@@ -590,8 +590,11 @@ func (this *Writer) Close() error {
 			}
 
 			// Write end block of size 0
-			this.obs.WriteBits(0, 5) // write length-3 (5 bits max)
-			this.obs.WriteBits(0, 3)
+			if err := this.writeEndMarker(); err != nil {
+				atomic.StoreInt32(&this.closing, 0)
+				return err
+			}
+
 			atomic.StoreInt32(&this.finalized, 1)
 		}
 	}
@@ -615,6 +618,25 @@ func (this *Writer) Close() error {
 		this.buffers[i] = blockBuffer{Buf: make([]byte, 0)}
 	}
 
+	return nil
+}
+
+// Writing to the bitstream may trigger a flush to the underlying stream and panic
+// if it fails: report the failure as an error like the block tasks do.
+func (this *Writer) writeEndMarker() (err error) {
+	defer func() {
+		if r := recover(); r != nil {
+			switch v := r.(type) {
+			case error:
+				err = &IOError{msg: v.Error(), code: kanzi.ERR_WRITE_FILE}
+			default:
+				err = &IOError{msg: fmt.Sprint(v), code: kanzi.ERR_WRITE_FILE}
+			}
+		}
+	}()
+
+	this.obs.WriteBits(0, 5) // write length-3 (5 bits max)
+	this.obs.WriteBits(0, 3)
 	return nil
 }
 
